@@ -562,6 +562,20 @@ class Branches:
             "place": rv["place"],
         }
 
+    def first_variant_switch(self, adt, scrutinee_ok=None, within=None):
+        """The dominator-earliest discriminant switch on `adt` whose scrutinee terms satisfy
+        scrutinee_ok (drop elaboration re-tests the same discriminant later; those are not it)."""
+        best = None
+        for blk, t in self.switches():
+            if within is not None and blk not in within:
+                continue
+            ve = self.variant_edges(blk)
+            if ve and ve["adt"] == adt and (scrutinee_ok is None or scrutinee_ok(ve["scrutinee"])):
+                depth = len(self.b.dominators().get(blk, ()))
+                if best is None or depth < best[0]:
+                    best = (depth, blk, ve)
+        return (best[1], best[2]) if best else (None, None)
+
     def bool_edges(self, blk):
         """For a switch on a bool: (true_target, false_target) or None."""
         t = self.b.blocks[blk]["term"]
